@@ -158,6 +158,72 @@ func runC06(c *core.Ctx) {
 		}
 	}
 	c.Floor("C06/mutation-journalised", 9)
+
+	// ---- revert side: RevertToSnapshot(0) means "back to the last committed root", whatever the journal holds
+	if fn := anchorM(c, pkg, "AccountsDB", "RevertToSnapshot"); fn != nil {
+		snap := fn.Params[1]
+		// no success exit before the snapshot==0 case was examined
+		bad := ""
+		for _, r := range core.Returns(fn) {
+			if !core.SuccessReturn(r, nil) {
+				continue
+			}
+			tested := false
+			for _, f := range core.FactsAt(r.Block()) {
+				if (f.Op == "==" || f.Op == "!=") && ((f.A == "0" && f.B == "p1") || (f.A == "p1" && f.B == "0")) {
+					tested = true
+				}
+			}
+			if ev := core.RetErrOperand(r); ev != nil {
+				if call, ok := ev.(*ssa.Call); ok && core.CallDesc(&call.Call).Name == "recreateTrie" {
+					tested = true
+				}
+			}
+			if !tested {
+				bad = c.P.Pos(r.Pos())
+			}
+		}
+		_ = snap
+		c.Check(bad == "", "C06/revert-to-zero-recreates", "AccountsDB.RevertToSnapshot/zero-case-first", fn.Pos(),
+			"every success exit lies behind the snapshot==0 test", "the success exit at "+bad+" is reachable without examining the snapshot==0 case: RevertToSnapshot(0) can return without restoring the last committed root (e.g. after a failed Commit emptied the journal)")
+		// on the snapshot==0 branch the trie is recreated at lastRootHash
+		zero := core.PruneWhen(func(cd core.Cond) bool {
+			f := core.FactOf(cd)
+			return f.Op == "!=" && ((f.A == "0" && f.B == "p1") || (f.A == "p1" && f.B == "0"))
+		})
+		// start after the test: query = every success return reachable with snapshot==0 passes recreateTrie(lastRootHash)
+		cv := core.NewCheckedVia(fn, func(in ssa.Instruction, cc *ssa.CallCommon) bool {
+			return core.CallDesc(cc).Is(pkg, "AccountsDB", "recreateTrie") && isRecvField(fn, cc.Args[1], "lastRootHash")
+		})
+		only0 := func(b *ssa.BasicBlock, s int) bool {
+			if zero(b, s) {
+				return true
+			}
+			return false
+		}
+		q := core.PathQ{Fn: fn, Via: cv.Via, ViaEdge: cv.ViaEdge, Prune: only0, Target: cv.WrapTarget(func(in ssa.Instruction, pred *ssa.BasicBlock) bool {
+			if !core.SuccessReturn(in, pred) {
+				return false
+			}
+			// only returns inside the snapshot==0 region
+			for _, f := range core.FactsAt(in.Block()) {
+				if f.Op == "==" && ((f.A == "0" && f.B == "p1") || (f.A == "p1" && f.B == "0")) {
+					return true
+				}
+			}
+			return false
+		})}
+		esc, path := q.Escape()
+		c.Check(esc == nil && len(cv.Calls) > 0, "C06/revert-to-zero-recreates", "AccountsDB.RevertToSnapshot/recreate-last-root", fn.Pos(),
+			"with snapshot==0 every success exit has recreated the trie at lastRootHash", "with snapshot==0 a success exit is reachable without recreateTrie(lastRootHash): "+c.P.PathString(path))
+	}
+	if fn := anchorM(c, pkg, "AccountsDB", "recreateTrie"); fn != nil {
+		mustPass(c, fn, "C06/revert-to-zero-recreates", "AccountsDB.recreateTrie/data-tries-reset", nil, func(in ssa.Instruction) bool {
+			cc := core.CallOf(in)
+			return cc != nil && isInvoke(cc, "Reset") && isRecvField(fn, cc.Value, "dataTries")
+		}, core.SuccessReturn, nil, "the cache of loaded data tries (mutated in place by saveDataTrie) is dropped whenever the main trie is recreated")
+	}
+	c.Floor("C06/revert-to-zero-recreates", 3)
 }
 
 func ssaExported(fn *ssa.Function) bool {
